@@ -97,7 +97,11 @@ fn one_request(port: u16, path: &str, timeout_ms: u64) -> Hit {
     let addr = std::net::SocketAddr::from(([127, 0, 0, 1], port));
     let s = match std::net::TcpStream::connect_timeout(&addr, Duration::from_secs(2)) {
         Ok(s) => s,
-        Err(e) => return Hit::Refused(e.kind().to_string()),
+        // RST in answer to the SYN = nobody listens (ECONNREFUSED). Anything else at connect time (ECONNRESET: the
+        // handshake was completed by a listener that closed before accept()ing; time-outs under load) is the
+        // kernel's backlog of a closing SO_REUSEPORT listener, which the statement does not cover.
+        Err(e) if e.kind() == std::io::ErrorKind::ConnectionRefused => return Hit::Refused(e.kind().to_string()),
+        Err(e) => return Hit::NoBytes(0, format!("connect: {}", e.kind())),
     };
     let lp = s.local_addr().map(|a| a.port()).unwrap_or(0);
     let _ = s.set_read_timeout(Some(Duration::from_millis(timeout_ms)));
@@ -274,7 +278,10 @@ impl Chain {
             }
         }
         let slow_ok = slow.iter().filter(|h| matches!(h, Hit::Ok(_))).count();
-        let slow_bad: Vec<String> = slow.iter().filter(|h| !matches!(h, Hit::Ok(_))).map(|h| format!("{h:?}")).collect();
+        // a slow request that no instance ever accept()ed (reset in the backlog of a closing listener) was not
+        // "accepted by either instance": counted, not judged
+        let slow_backlog = slow.iter().filter(|h| matches!(h, Hit::NoBytes(p, _) if !accepted.contains(&(*p as u64)))).count();
+        let slow_bad: Vec<String> = slow.iter().filter(|h| !matches!(h, Hit::Ok(_)) && !matches!(h, Hit::NoBytes(p, _) if !accepted.contains(&(*p as u64)))).map(|h| format!("{h:?}")).collect();
         let fin_final: Vec<String> = served_by_final.iter().map(|k| k.to_string()).collect();
         // bind-before-told, straight from the timestamps
         let mut order_bad = String::new();
@@ -288,7 +295,7 @@ impl Chain {
         std::thread::sleep(Duration::from_millis(30));
         for i in insts.iter_mut() { if let Some(s) = i.stop.take() { let _ = s.send(()); } }
         let _ = std::fs::remove_file(&path);
-        format!("trace=[{}] | {obs} | requests={} ok={okc} refused={refused} cut={cut} backlog-reset={backlog} wrong={wrong} slow-ok={slow_ok}/{} final-served-by=[{}] unattributed={unattributed} order={} detail={} slow-bad={}",
+        format!("trace=[{}] | {obs} | requests={} ok={okc} refused={refused} cut={cut} backlog-reset={backlog} wrong={wrong} slow-ok={slow_ok}+{slow_backlog}/{} final-served-by=[{}] unattributed={unattributed} order={} detail={} slow-bad={}",
             trace.join(","), hits.len(), slow.len(), fin_final.join(","), if order_bad.is_empty() { "ok" } else { &order_bad }, if detail.is_empty() { "-" } else { &detail }, if slow_bad.is_empty() { "-".to_owned() } else { slow_bad.join(";") })
     }
 }
@@ -296,6 +303,9 @@ impl Chain {
 const POINTS: [&str; 6] = ["execute:before-bind", "execute:bound", "ctl:shutdown-sent", "shutdown:after-store", "shutdown:before-notify", "accept:listener-closed"];
 
 impl Group for Chain {
+    fn timing_sensitive(&self) -> bool {
+        true
+    }
     fn name(&self) -> &'static str {
         "c11.chain"
     }
@@ -357,7 +367,8 @@ impl Group for Chain {
         if get("cut=") != "0" || get("wrong=") != "0" {
             return Some(("cut".into(), format!("a connection accepted by an instance was not served to completion: {out}")));
         }
-        if !get("slow-ok=").starts_with(&format!("{handovers}/")) {
+        let slow_total: usize = get("slow-ok=").split('/').next().unwrap_or("").split('+').filter_map(|x| x.parse::<usize>().ok()).sum();
+        if slow_total != handovers || get("slow-bad=") != "-" {
             return Some(("slow".into(), format!("a request in flight across the switch did not complete: {out}")));
         }
         if get("order=") != "ok" {
